@@ -44,7 +44,7 @@ ENTRIES = [L + "LossODE.evaluate", L + "LossODE.__call__", L + "SystemLossODE.ev
 
 @functools.lru_cache(maxsize=1)
 def _analysis():
-    fc = FrameChecker("/repo/jinns")
+    fc = FrameChecker()
     cone = fc.cone(ENTRIES)
     return fc, cone
 
@@ -200,7 +200,8 @@ print(json.dumps(out))
 def native_order_witness():
     """the value of an evaluation does not depend on what was evaluated before in the same process (fresh interpreters)"""
     import subprocess, sys, json, os
-    env = dict(os.environ, JAX_PLATFORMS="cpu", PYTHONPATH="/repo")
+    from vf.paths import REPO as _REPO
+    env = dict(os.environ, JAX_PLATFORMS="cpu", PYTHONPATH=_REPO)
     def run(order):
         r = subprocess.run([sys.executable, "-W", "ignore", "-c", _ORDER_SCRIPT, order], capture_output=True, text=True, env=env, timeout=300)
         return json.loads(r.stdout.strip().splitlines()[-1])
